@@ -21,6 +21,13 @@ only hypotheses are facts about values that exist in a Rust process:
   without it the exact result is still proved (`…_norm`: the key comes back normalised, as `KeyData::deserialize` does);
 * `intern (resolve s) = s` — the interner returns the symbol it resolved.
 
+Refusal clause ("values that cannot cross the boundary are refused with an error rather than silently altered"), at
+full strength since `to_ffi_value` refuses `Value::ErrorV` (former finding F9, repaired in /repo): `C20_refusal_iff`
+(refused ⇔ a Closure / Fixpoint / ExternalFn / Store / ConstructorFn / ErrorV occurs at some depth),
+`C20_value_ffi_roundtrip` (EVERY value that is let through comes back as itself), `C20_refused_or_unchanged`; the same
+for macro-argument lists.  The wire variant `FfiValue::ErrorV` still exists and still decodes (to `Unit`):
+`C20_errorV_wire_variant_kept`; it is never written (`C20_toFfi_never_errorV`, `C20_errorV_refused_inside`).
+
 Soundness direction (second half of the file, `C20_*decode_sound`, `…_decode_wellformed`, `…_decode_reencode`,
 `…_prefix_deterministic`, `…_truncation`, `…_extension`): for ALL byte strings, whatever one of the four decoders
 (`FfiValue`, macro arguments, `Type`, direct `Value`) accepts is the encoder's output for a representable value `w`
@@ -98,69 +105,125 @@ theorem C20_macro_args_roundtrip (as : List (FfiValue × Key)) (rest : Bytes) (h
 section conv
 variable {σ : Type} (resolve : σ → String) (intern : String → σ)
 
-/-- refusals: `to_ffi_value` returns `Err` exactly when a Closure / Fixpoint / ExternalFn / Store / ConstructorFn
-occurs somewhere inside the value -/
-theorem C20_refusal_iff (v : Value σ) : (∃ e, toFfi resolve v = .error e) ↔ v.HasOpaque :=
+/-- refusals: `to_ffi_value` returns `Err` exactly when a Closure / Fixpoint / ExternalFn / Store / ConstructorFn or an
+error value (`ErrorV`) occurs somewhere inside the value, at any depth -/
+theorem C20_refusal_iff (v : Value σ) :
+    (∃ e, toFfi resolve v = .error e) ↔ (v.HasOpaque ∨ v.HasErrorV) :=
   toFfi_error_iff resolve v
 
 /-- everything else crosses -/
-theorem C20_crosses_iff (v : Value σ) : (∃ x, toFfi resolve v = .ok x) ↔ ¬ v.HasOpaque := by
-  rw [← C20_refusal_iff resolve v]
+theorem C20_crosses_iff (v : Value σ) :
+    (∃ x, toFfi resolve v = .ok x) ↔ (¬ v.HasOpaque ∧ ¬ v.HasErrorV) := by
+  rw [← not_or, ← C20_refusal_iff resolve v]
   cases toFfi resolve v <;> simp
 
-/-- representable fragment (no opaque variant, no `ErrorV`): `Value → FfiValue → Value` is the identity -/
-theorem C20_value_ffi_roundtrip (hi : ∀ s, intern (resolve s) = s) (v : Value σ)
-    (ho : ¬ v.HasOpaque) (he : ¬ v.HasErrorV) :
-    ∃ x, toFfi resolve v = .ok x ∧ toValue intern x = v := by
-  obtain ⟨x, hx⟩ := (C20_crosses_iff resolve v).2 ho
-  exact ⟨x, hx, by rw [toValue_toFfi resolve intern hi v x hx, eraseErrors_eq v he]⟩
-
-/-- PARTIAL form that holds for *every* value that crosses: it comes back with each `ErrorV` replaced by `Unit`
-and nothing else changed -/
-theorem C20_value_ffi_roundtrip_partial (hi : ∀ s, intern (resolve s) = s) (v : Value σ) (x : FfiValue)
-    (h : toFfi resolve v = .ok x) : toValue intern x = v.eraseErrors :=
+/-- FULL STRENGTH, every value, no exception class: whatever `to_ffi_value` lets through, `to_value` turns back into
+exactly the value that went in -/
+theorem C20_value_ffi_roundtrip (hi : ∀ s, intern (resolve s) = s) (v : Value σ) (x : FfiValue)
+    (h : toFfi resolve v = .ok x) : toValue intern x = v :=
   toValue_toFfi resolve intern hi v x h
 
-/-- the whole pipeline `deserialize_value (serialize_value v ++ anything)` on the representable fragment -/
+/-- existence form: a value without opaque variant and without error value does cross, and comes back unchanged -/
+theorem C20_value_ffi_roundtrip_exists (hi : ∀ s, intern (resolve s) = s) (v : Value σ)
+    (ho : ¬ v.HasOpaque) (he : ¬ v.HasErrorV) :
+    ∃ x, toFfi resolve v = .ok x ∧ toValue intern x = v := by
+  obtain ⟨x, hx⟩ := (C20_crosses_iff resolve v).2 ⟨ho, he⟩
+  exact ⟨x, hx, C20_value_ffi_roundtrip resolve intern hi v x hx⟩
+
+/-- the statement of the property through the bytes: for EVERY value `v`, if `to_ffi_value v = Ok f` then decoding the
+encoding of `f` (with anything appended) and converting back gives `v` -/
+theorem C20_value_bytes_roundtrip (hi : ∀ s, intern (resolve s) = s) (v : Value σ) (x : FfiValue) (rest : Bytes)
+    (h : toFfi resolve v = .ok x) (hr : x.Rep) (hk : x.KeysValid) :
+    (decodeTop (encode x ++ rest)).map (toValue intern) = some v := by
+  rw [C20_ffi_deserialize_serialize x rest hr hk]
+  simp [C20_value_ffi_roundtrip resolve intern hi v x h]
+
+/-- the whole pipeline `deserialize_value (serialize_value v ++ anything)`, for every value that is serialised -/
 theorem C20_serialize_deserialize (hi : ∀ s, intern (resolve s) = s) (v : Value σ) (x : FfiValue) (rest : Bytes)
-    (h : toFfi resolve v = .ok x) (hr : x.Rep) (hk : x.KeysValid) (he : ¬ v.HasErrorV) :
+    (h : toFfi resolve v = .ok x) (hr : x.Rep) (hk : x.KeysValid) :
     ∃ bs, serializeValue resolve v = .ok bs ∧ deserializeValue intern (bs ++ rest) = some v := by
   refine ⟨encode x, by simp [serializeValue, h], ?_⟩
   simp only [deserializeValue, C20_ffi_deserialize_serialize x rest hr hk]
-  rw [toValue_toFfi resolve intern hi v x h, eraseErrors_eq v he]
+  rw [toValue_toFfi resolve intern hi v x h]
 
-/-- NEGATIVE (finding F9): `Value::ErrorV` is *not* refused; it crosses the boundary and comes back as `Unit` —
-"refused with an error rather than silently altered" fails for this variant, for every key `e`. -/
-theorem C20_errorV_silently_altered (e : Key) :
-    serializeValue resolve (Value.errorV e : Value σ) = .ok (encode .errorV)
-    ∧ deserializeValue intern (encode .errorV) = some (Value.unit : Value σ)
-    ∧ (Value.errorV e : Value σ) ≠ Value.unit := by
-  refine ⟨rfl, ?_, by intro h; cases h⟩
-  have := C20_ffi_deserialize_serialize .errorV [] (by simp [FfiValue.Rep]) (by simp [FfiValue.KeysValid])
-  rw [List.append_nil] at this
-  simp [deserializeValue, this, toValue]
+/-- REPAIRED (former finding F9): `Value::ErrorV` is refused by `to_ffi_value` / `serialize_value`, for every key `e`,
+with the source's message; nothing is written. -/
+theorem C20_errorV_refused (e : Key) :
+    toFfi resolve (Value.errorV e : Value σ) = .error "Error values cannot be serialized across FFI boundaries"
+    ∧ serializeValue resolve (Value.errorV e : Value σ)
+        = .error "Error values cannot be serialized across FFI boundaries" :=
+  ⟨rfl, rfl⟩
+
+/-- … and so is every value that contains one at any depth (and every value whose conversion yields the wire variant
+`FfiValue::ErrorV` does not exist: `to_ffi_value` never produces it) -/
+theorem C20_errorV_refused_inside (v : Value σ) (h : v.HasErrorV) :
+    (∃ e, serializeValue resolve v = .error e) ∧ ∀ x, toFfi resolve v ≠ .ok x := by
+  obtain ⟨e, he⟩ := (C20_refusal_iff resolve v).2 (.inr h)
+  exact ⟨⟨e, by simp [serializeValue, he]⟩, fun x hx => by rw [he] at hx; cases hx⟩
+
+/-- "refused with an error rather than silently altered", for EVERY value: either `serialize_value` returns `Err`, or
+the bytes it returns (followed by anything) deserialise to the very same value.  Hypothesis `hw`: what is written is
+representable in a Rust process (lengths < 2^64) and its `Code` keys are slotmap-issued. -/
+theorem C20_refused_or_unchanged (hi : ∀ s, intern (resolve s) = s) (v : Value σ)
+    (hw : ∀ x, toFfi resolve v = .ok x → x.Rep ∧ x.KeysValid) :
+    (∃ e, serializeValue resolve v = .error e) ∨
+      (∃ bs, serializeValue resolve v = .ok bs ∧ ∀ rest, deserializeValue intern (bs ++ rest) = some v) := by
+  cases h : toFfi resolve v with
+  | error e => exact .inl ⟨e, by simp [serializeValue, h]⟩
+  | ok x =>
+    obtain ⟨hr, hk⟩ := hw x h
+    refine .inr ⟨encode x, by simp [serializeValue, h], fun rest => ?_⟩
+    obtain ⟨bs, hs, hd⟩ := C20_serialize_deserialize resolve intern hi v x rest h hr hk
+    simp only [serializeValue, h] at hs
+    cases hs
+    exact hd
+
+/-! ### the same for macro-argument lists (`serialize_macro_args` / `deserialize_macro_args`) -/
+
+/-- `serialize_macro_args` refuses exactly when some argument contains a variant that cannot cross -/
+theorem C20_macro_args_refusal_iff (as : List (Value σ × Key)) :
+    (∃ e, serializeMacroArgs resolve as = .error e) ↔ ArgsUncrossable as := by
+  rw [← toFfiArgs_error_iff resolve as]
+  unfold serializeMacroArgs
+  cases toFfiArgs resolve as <;> simp
+
+/-- every argument list that is converted comes back unchanged (values and type ids) -/
+theorem C20_macro_args_value_roundtrip (hi : ∀ s, intern (resolve s) = s) (as : List (Value σ × Key))
+    (xs : List (FfiValue × Key)) (h : toFfiArgs resolve as = .ok xs) : toValueArgs intern xs = as :=
+  toValueArgs_toFfiArgs resolve intern hi as xs h
+
+/-- whole pipeline for argument lists; `normArgs xs = xs` = every key on the wire is slotmap-issued -/
+theorem C20_macro_args_serialize_deserialize (hi : ∀ s, intern (resolve s) = s) (as : List (Value σ × Key))
+    (xs : List (FfiValue × Key)) (rest : Bytes) (h : toFfiArgs resolve as = .ok xs)
+    (hl : LenOk xs.length) (hr : RepArgs xs) (hk : normArgs xs = xs) :
+    ∃ bs, serializeMacroArgs resolve as = .ok bs ∧ deserializeMacroArgs intern (bs ++ rest) = some as := by
+  refine ⟨encodeArgs xs, by simp [serializeMacroArgs, h], ?_⟩
+  simp only [deserializeMacroArgs, decodeArgsTop, C20_macro_args_roundtrip xs rest hl hr, hk, Option.map]
+  rw [toValueArgs_toFfiArgs resolve intern hi as xs h]
 
 end conv
 
-/-- the same on the concrete witness, by evaluation of the model (on the pinned tree the bytes are `00 00 00 00`) -/
+/-- the repaired behaviour on the former witnesses of F9, by evaluation of the model: the bare error value, one inside
+an array and one under a record field / tagged union are all refused … -/
 theorem C20_errorV_witness :
-    (serializeValue (σ := String) id (.errorV ⟨0, 1⟩)).toOption = some (encU32 FfiCtor.ErrorV.tag)
-    ∧ (deserializeValue (σ := String) id (encU32 FfiCtor.ErrorV.tag)).map Value.ctor = some ValCtor.Unit := by
+    (serializeValue (σ := String) id (.errorV ⟨0, 1⟩)).toOption = none
+    ∧ (serializeValue (σ := String) id (.array [.errorV ⟨0, 1⟩, .unit])).toOption = none
+    ∧ (serializeValue (σ := String) id (.record [("é", .taggedUnion 3 (.errorV ⟨0, 1⟩))])).toOption = none
+    ∧ (serializeMacroArgs (σ := String) id [(.unit, ⟨0, 1⟩), (.tuple [.errorV ⟨0, 1⟩], ⟨0, 1⟩)]).toOption = none := by
   decide +kernel
 
-/-- the property's refusal clause, as it would have to hold, is false of the model (hence of the code the model
-agrees with on this input): there is a value that is neither refused nor returned unchanged. -/
-theorem C20_refused_or_unchanged_fails :
-    ¬ ∀ v : Value String, (∃ e, serializeValue id v = .error e) ∨
-        (∃ bs, serializeValue id v = .ok bs ∧ deserializeValue id bs = some v) := by
-  intro h
-  rcases h (.errorV ⟨0, 1⟩) with ⟨e, he⟩ | ⟨bs, hs, hd⟩
-  · simp [serializeValue, toFfi] at he
-  · have h1 := (C20_errorV_silently_altered (σ := String) id id ⟨0, 1⟩)
-    rw [h1.1] at hs
-    cases hs
-    rw [h1.2.1] at hd
-    cases hd
+/-- … while the wire format is unchanged: the variant index of `FfiValue::ErrorV` is still decoded (bytes written by
+a plugin built against the old library), as `Unit` — such bytes are never written by `serialize_value` any more
+(`C20_errorV_refused_inside`) -/
+theorem C20_errorV_wire_variant_kept :
+    (deserializeValue (σ := String) id (encU32 FfiCtor.ErrorV.tag)).map Value.ctor = some ValCtor.Unit := by
+  decide +kernel
+
+/-- no value is converted to the wire variant `ErrorV` (top level; inside aggregates: what crosses contains no error
+value by `C20_crosses_iff` and comes back unchanged by `C20_value_ffi_roundtrip`, while `ErrorV` would come back `Unit`) -/
+theorem C20_toFfi_never_errorV {σ : Type} (resolve : σ → String) (v : Value σ) :
+    toFfi resolve v ≠ .ok .errorV := by
+  cases v <;> simp only [toFfi] <;> (try simp) <;> split <;> simp
 
 /-! ## hand-written `Serialize`/`Deserialize` tables of `Type` and `Value` (generated, re-checked each run) -/
 
@@ -219,6 +282,19 @@ example : (FfiValue.record [("é", .array [.number 0x7FF8000000000001, .taggedUn
 
 example : decodeBytes (encode (.array [.string "aé", .unit])) = some (.array [.string "aé", .unit], []) :=
   C20_ffi_roundtrip _ (by simp [FfiValue.Rep, RepList, LenOk, strBytes]; decide) (by simp [FfiValue.KeysValid, KeysValidList])
+
+-- a value that crosses (hypotheses of `C20_value_bytes_roundtrip` / `C20_refused_or_unchanged` are satisfiable) …
+example : ∃ x, toFfi (σ := String) id (.record [("é", .array [.number 1, .taggedUnion 3 (.code ⟨7, 5⟩)])]) = .ok x
+    ∧ x.Rep ∧ x.KeysValid :=
+  ⟨_, rfl, by simp [FfiValue.Rep, RepList, RepFields, LenOk, strBytes]; decide,
+    by simp [FfiValue.KeysValid, KeysValidList, KeysValidFields]; decide⟩
+-- … and both kinds of refusal
+example : (Value.tuple [.unit, .taggedUnion 0 (.errorV ⟨0, 1⟩)] : Value String).HasErrorV := by
+  simp [Value.HasErrorV, HasErrorVList]
+example : (Value.array [.store .unit] : Value String).HasOpaque ∧ ¬ (Value.array [.store .unit] : Value String).HasErrorV := by
+  simp [Value.HasOpaque, HasOpaqueList, Value.HasErrorV, HasErrorVList]
+example : ArgsUncrossable [((.unit : Value String), (⟨0, 1⟩ : Key)), (.tuple [.errorV ⟨0, 1⟩], ⟨0, 1⟩)] := by
+  simp [ArgsUncrossable, Value.HasErrorV, HasErrorVList]
 
 example : ∃ bs, encodeTy (.userSum 3 [(1, none), (2, some ⟨5, 7⟩)]) = some bs := ⟨_, rfl⟩
 example : (Ty.record [⟨1, ⟨0, 1⟩, true⟩]).KeysValid := by unfold Ty.KeysValid; decide
